@@ -104,6 +104,11 @@ func (f *Frame) doCall(instr ssa.Instruction, cc *ssa.CallCommon, st *State, rt 
 	}
 	if m, ok := libModels[full]; ok {
 		e.usedModels[full] = true
+		name := callee.Name()
+		if o := callee.Origin(); o != nil {
+			name = o.Name()
+		}
+		e.siteCall(f, st, name, args, pos)
 		return m(f, st, cc, args, rt, pos)
 	}
 	c := e.P.ContractFor(callee)
@@ -514,13 +519,23 @@ func (f *Frame) applyContract(c *Contract, callee *ssa.Function, cc *ssa.CallCom
 	post := &EvalCtx{f: nil, st: st, old: pre, binds: map[string]Val{}, results: results, resNames: c.ResultNames}
 	post.paramVals = ctx.paramVals
 	post.pkg, post.cf = ctx.pkg, ctx.cf
+	// a callee with an active known finding only satisfies its contract outside the finding's input class
+	outside := "true"
+	for _, k := range c.Known {
+		if !e.knownActive[k.ID] {
+			continue
+		}
+		if g, err := e.evalBool(ctx, k.Class.E); err == nil {
+			outside = sAnd(outside, sNot(g))
+		}
+	}
 	for _, en := range c.Ensures {
 		g, err := e.evalBool(post, en.E)
 		if err != nil {
 			e.bindError(c.Key+".ensures", err)
 			continue
 		}
-		e.assume(st.cond, g)
+		e.assume(st.cond, sImp(outside, g))
 	}
 	// type invariants of results
 	for _, r := range results {
